@@ -45,6 +45,9 @@ def build(tr, H, expanded=False):
         return [H.MetadataNode()]
     if f == "D":
         name, ver = tr["name"].split("@")
+        if name in ("e", "g"):
+            return [H.HTMLDependency(name, ver, source={"subdir": "lib src"}, script=[{"src": "a b.js"}, {"src": "c.js", "defer": ""}],
+                                     stylesheet={"href": "s t.css"}, meta={"name": "m", "content": "c"}, head=H.tags.title("h"))]
         return [H.HTMLDependency(name, ver)]
     if f == "R":
         return [gamma.ReprObj("<r/>")]
@@ -135,7 +138,11 @@ class Proj:
             return self.list_obj(o, seen)
         elif isinstance(o, H.HTMLDependency):
             k = self.list_obj(o.head, seen) if o.head is not None else 0
-            self.heap[n - 1] = self.obj("dep", f"{o.name}@{o.version}", k=k)
+            # the value of a dependency: name, version and (as a digest) source / script / stylesheet / meta / all_files,
+            # so that an in-place rewrite of its item dicts (e.g. by as_dict) shows as a structural change
+            import json as _json
+            val = digest(_json.dumps([o.source, o.script, o.stylesheet, o.meta, o.all_files], sort_keys=True, default=str))
+            self.heap[n - 1] = self.obj("dep", f"{o.name}@{o.version}#{val[:8]}", k=k)
         elif isinstance(o, H.MetadataNode):
             self.heap[n - 1] = self.obj("meta")
         elif isinstance(o, XTfy):
@@ -262,8 +269,11 @@ def run_history(tree, hist, H, seed):
                     elif op == "copy":
                         copy.copy(r)
                     elif op == "dep_methods":
-                        for d in (r.render()["dependencies"] if not is_doc else r.render()["dependencies"]):
-                            d.as_html_tags(); d.as_dict(); d.source_path_map(); d.serialize_to_script_json(); str(d); repr(d)
+                        # on the dependency objects held by the tree itself (dedup=False returns them, not copies)
+                        own = [] if is_doc else r.get_dependencies(dedup=False)
+                        for d in own + r.render()["dependencies"]:
+                            d.as_html_tags(lib_prefix="L"); d.as_dict(lib_prefix="L", include_version=False); d.source_path_map()
+                            d.serialize_to_script_json(indent=2); str(d); repr(d)
                     elif op == "views":
                         a, b, c, d = str(r), repr(r), r._repr_html_(), r.render()["html"]
                         ev["eq"] = bool(a == b == c == d)
